@@ -27,7 +27,6 @@ var externals = make(map[string]externalFn)
 // ZZ is the import path of the harness runtime package.
 const ZZ = "github.com/siglens/siglens/pkg/zzverif"
 
-
 func init() {
 	for k, v := range map[string]externalFn{
 		// ---- harness runtime
@@ -75,7 +74,7 @@ func init() {
 		"math.Log":             fpConcrete1(math.Log),
 		"math.Log2":            fpConcrete1(math.Log2),
 		"math.Log10":           fpConcrete1(math.Log10),
-		"math.Round":           fpConcrete1(math.Round),
+		"math.Round":           fpUnary("fp.rna", math.Round),
 		"math.Pow":             fpConcrete2(math.Pow),
 		"math.Mod":             fpConcrete2(math.Mod),
 		"math.Max":             ext۰math۰Max,
@@ -151,24 +150,24 @@ func init() {
 		"errors.Is":    ext۰errors۰Is,
 
 		// ---- sync
-		"(*sync.Mutex).Lock":          noop,
-		"(*sync.Mutex).Unlock":        noop,
-		"(*sync.Mutex).TryLock":       func(fr *frame, a []value) value { return true },
-		"(*sync.RWMutex).Lock":        noop,
-		"(*sync.RWMutex).Unlock":      noop,
-		"(*sync.RWMutex).RLock":       noop,
-		"(*sync.RWMutex).RUnlock":     noop,
-		"(*sync.RWMutex).TryLock":     func(fr *frame, a []value) value { return true },
-		"(*sync.RWMutex).TryRLock":    func(fr *frame, a []value) value { return true },
-		"(*sync.WaitGroup).Add":       noop,
-		"(*sync.WaitGroup).Done":      noop,
-		"(*sync.WaitGroup).Wait":      noop,
-		"(*sync.Once).Do":             ext۰sync۰Once۰Do,
-		"(*sync.Once).doSlow":         ext۰sync۰Once۰Do,
-		"(*sync.Pool).Get":            ext۰sync۰Pool۰Get,
-		"(*sync.Pool).Put":            noop,
-		"(*sync.Cond).Signal":         noop,
-		"(*sync.Cond).Broadcast":      noop,
+		"(*sync.Mutex).Lock":               noop,
+		"(*sync.Mutex).Unlock":             noop,
+		"(*sync.Mutex).TryLock":            func(fr *frame, a []value) value { return true },
+		"(*sync.RWMutex).Lock":             noop,
+		"(*sync.RWMutex).Unlock":           noop,
+		"(*sync.RWMutex).RLock":            noop,
+		"(*sync.RWMutex).RUnlock":          noop,
+		"(*sync.RWMutex).TryLock":          func(fr *frame, a []value) value { return true },
+		"(*sync.RWMutex).TryRLock":         func(fr *frame, a []value) value { return true },
+		"(*sync.WaitGroup).Add":            noop,
+		"(*sync.WaitGroup).Done":           noop,
+		"(*sync.WaitGroup).Wait":           noop,
+		"(*sync.Once).Do":                  ext۰sync۰Once۰Do,
+		"(*sync.Once).doSlow":              ext۰sync۰Once۰Do,
+		"(*sync.Pool).Get":                 ext۰sync۰Pool۰Get,
+		"(*sync.Pool).Put":                 noop,
+		"(*sync.Cond).Signal":              noop,
+		"(*sync.Cond).Broadcast":           noop,
 		"sync.runtime_registerPoolCleanup": noop,
 		"sync.runtime_notifyListCheck":     noop,
 		"sync.throw":                       noop,
@@ -204,26 +203,26 @@ func init() {
 		"(*sync/atomic.Value).Store":       ext۰atomic۰Value۰Store,
 
 		// ---- runtime / os / time
-		"runtime.GOMAXPROCS":   func(fr *frame, a []value) value { return 4 },
-		"runtime.NumCPU":       func(fr *frame, a []value) value { return 4 },
-		"runtime.Gosched":      noop,
-		"runtime.GC":           noop,
-		"runtime.KeepAlive":    noop,
-		"runtime.SetFinalizer": noop,
-		"runtime.Caller":       func(fr *frame, a []value) value { return tuple{uintptr(0), "", 0, false} },
-		"runtime.Callers":      func(fr *frame, a []value) value { return 0 },
-		"runtime.Stack":        func(fr *frame, a []value) value { return 0 },
-		"runtime/debug.Stack":  func(fr *frame, a []value) value { return []value{} },
+		"runtime.GOMAXPROCS":       func(fr *frame, a []value) value { return 4 },
+		"runtime.NumCPU":           func(fr *frame, a []value) value { return 4 },
+		"runtime.Gosched":          noop,
+		"runtime.GC":               noop,
+		"runtime.KeepAlive":        noop,
+		"runtime.SetFinalizer":     noop,
+		"runtime.Caller":           func(fr *frame, a []value) value { return tuple{uintptr(0), "", 0, false} },
+		"runtime.Callers":          func(fr *frame, a []value) value { return 0 },
+		"runtime.Stack":            func(fr *frame, a []value) value { return 0 },
+		"runtime/debug.Stack":      func(fr *frame, a []value) value { return []value{} },
 		"runtime/debug.PrintStack": noop,
-		"os.Getenv":            func(fr *frame, a []value) value { return "" },
-		"os.LookupEnv":         func(fr *frame, a []value) value { return tuple{"", false} },
-		"os.Getpid":            func(fr *frame, a []value) value { return 4242 },
-		"os.Exit":              func(fr *frame, a []value) value { panic(unsupported("os.Exit called")) },
-		"time.now":             ext۰time۰now,
-		"time.runtimeNano":     func(fr *frame, a []value) value { return fr.i.clockNano() },
-		"time.Now":             ext۰time۰Now,
-		"time.Sleep":           noop,
-		"time.Since":           nil,
+		"os.Getenv":                func(fr *frame, a []value) value { return "" },
+		"os.LookupEnv":             func(fr *frame, a []value) value { return tuple{"", false} },
+		"os.Getpid":                func(fr *frame, a []value) value { return 4242 },
+		"os.Exit":                  func(fr *frame, a []value) value { panic(unsupported("os.Exit called")) },
+		"time.now":                 ext۰time۰now,
+		"time.runtimeNano":         func(fr *frame, a []value) value { return fr.i.clockNano() },
+		"time.Now":                 ext۰time۰Now,
+		"time.Sleep":               noop,
+		"time.Since":               nil,
 
 		// ---- sort
 		"sort.Slice":       ext۰sort۰Slice,
@@ -448,9 +447,15 @@ func (i *interpreter) fpBits(x sym, w int) *smt.Term {
 		// NaN payloads are preserved by Go on amd64 for plain moves
 		return x.t.Args[0]
 	}
-	i.fresh++
-	b := tb.Var(fmt.Sprintf("$fpbits%d_%d", i.fresh, x.t.ID), smt.BVSort(w))
-	i.path.pc = append(i.path.pc, tb.EqStruct(tb.AppI("bv2fp", w, 0, b), x.t))
+	// one bit pattern per FP term: the same term always maps to the same bits
+	b := tb.Var(fmt.Sprintf("$fpbits_%d", x.t.ID), smt.BVSort(w))
+	c := tb.EqStruct(tb.AppI("bv2fp", w, 0, b), x.t)
+	for _, q := range i.path.pc {
+		if q == c {
+			return b
+		}
+	}
+	i.path.pc = append(i.path.pc, c)
 	return b
 }
 
